@@ -1,4 +1,5 @@
 import E3fpVerif.Gen.Defaults
+import E3fpVerif.Lemmas.ConfigRT
 /-!
 # C20 — configuration values round-trip and defaults are coherent
 
@@ -26,5 +27,56 @@ theorem rt_bool (b : Bool) : parseVal (showVal (.bool b)) = .bool b := by
   cases b <;> decide
 
 theorem rt_none : parseVal (showVal .none) = .none := by decide
+
+/-- reading the decimal text of a natural gives the natural back -/
+theorem digitsNat_natDigits (n : Nat) : digitsNat? (natDigits n) = some n := E3fpVerif.digitsNat_natDigits n
+
+/-- every integer option value survives `str` then `literal_eval` (negative ones included) -/
+theorem rt_int (i : Int) : parseVal (showVal (.int i)) = .int i := parseVal_showInt i
+
+example : parseVal (showVal (.int (-1))) = .int (-1) := rt_int (-1)
+example : showVal (.int (-250)) = ['-', '2', '5', '0'] := by decide
+
+/-- a string value comes back as itself provided its text is not one of the literal words, is not
+read as an integer (also after a leading minus sign) and is not float text.
+Partial: the side conditions are stated on the text rather than derived from a grammar of "ordinary"
+strings; they are necessary (examples below). -/
+theorem rt_str_partial (s : String)
+    (h1 : s ≠ "True") (h2 : s ≠ "False") (h3 : s ≠ "None")
+    (hd : digitsNat? s.toList = none)
+    (hneg : ∀ r, s.toList = '-' :: r → digitsNat? r = none)
+    (hf : isFloatText s.toList = false) :
+    parseVal (showVal (.str s)) = .str s := parseVal_str s h1 h2 h3 hd hneg hf
+
+/-- non-vacuity: an ordinary string meets the side conditions -/
+example : parseVal (showVal (.str "rdkit_mmff94")) = .str "rdkit_mmff94" := by
+  have w : "rdkit_mmff94".toList = ['r', 'd', 'k', 'i', 't', '_', 'm', 'm', 'f', 'f', '9', '4'] := by decide
+  refine rt_str_partial _ (by decide) (by decide) (by decide) (by decide) ?_ (by decide)
+  intro r h
+  rw [w] at h
+  cases h
+
+/-- the side conditions are necessary: strings that look like other literals change type -/
+example : parseVal (showVal (.str "12")) = .int 12 := by decide
+example : parseVal (showVal (.str "-3")) = .int (-3) := by decide
+example : parseVal (showVal (.str "None")) = .none := by decide
+example : parseVal (showVal (.str "True")) = .bool true := by decide
+
+/-- a float value (kept as its `repr`) comes back as itself when the text is float text and not an
+integer text.  Partial in the same sense as `rt_str_partial`. -/
+theorem rt_float_partial (s : String)
+    (h1 : s ≠ "True") (h2 : s ≠ "False") (h3 : s ≠ "None")
+    (hd : digitsNat? s.toList = none)
+    (hneg : ∀ r, s.toList = '-' :: r → digitsNat? r = none)
+    (hf : isFloatText s.toList = true) :
+    parseVal (showVal (.float s)) = .float s := parseVal_float s h1 h2 h3 hd hneg hf
+
+example : parseVal (showVal (.float "-0.5")) = .float "-0.5" := by
+  have w : "-0.5".toList = ['-', '0', '.', '5'] := by decide
+  refine rt_float_partial _ (by decide) (by decide) (by decide) (by decide) ?_ (by decide)
+  intro r h
+  rw [w] at h
+  cases h
+  decide
 
 end E3fpVerif.Props.C20
